@@ -2,9 +2,9 @@
 from . import tlaval
 
 
-def step(kind='sync', n=0, status='-', emits=(), cmd='stop', next=0, args=(), kw=(), val='-'):
+def step(kind='sync', n=0, status='-', emits=(), cmd='stop', next=0, args=(), kw=(), val='-', aws=(), via='return'):
     return {'kind': kind, 'n': n, 'status': status, 'emits': [list(e) for e in emits], 'cmd': cmd, 'next': next,
-            'args': list(args), 'kw': [list(p) for p in kw], 'val': val}
+            'args': list(args), 'kw': [list(p) for p in kw], 'val': val, 'aws': list(aws), 'via': via}
 
 
 # The program family of DESIGN.md Appendix D (values are model strings; "vN" is the integer N).
@@ -34,6 +34,16 @@ PROGS.update({
     'P23': [step(cmd='continue', next=2, args=['v0']), step(cmd='stop', val='-')],
 })
 
+# WorkChain programs with awaitables (linear outlines; awt = context keys of the awaitables, by index)
+PROGS.update({
+    'W1': [step(cmd='await', next=2, aws=[1, 2]), step(cmd='stop', val='-')],
+    'W2': [step(cmd='await', next=2, aws=[1, 2], via='call'), step(cmd='stop', val='-')],
+    'W3': [step(cmd='await', next=2, aws=[1]), step(cmd='await', next=3, aws=[2]), step(cmd='stop', val='-')],
+    'W4': [step(cmd='await', next=2, aws=[1, 2, 3]), step(cmd='stop', val='-')],
+    'W5': [step(cmd='continue', next=2), step(cmd='await', next=3, aws=[1, 2]), step(cmd='stop', val='-')],
+})
+AWT = {'W1': ['a', 'b'], 'W2': ['a', 'b'], 'W3': ['a', 'a'], 'W4': ['a', 'b', 'c'], 'W5': ['a', 'b']}
+
 ALL_REQUESTS = ['kill', 'pause', 'play', 'resume', 'fail', 'cancel', 'cbok', 'cbraise']
 
 
@@ -43,7 +53,7 @@ def plan_entry(hook, occ, req, arg='-'):
 
 def family(names, out_missing=()):
     """[{'name','steps','outMissing'}] for TLA+ constant Progs"""
-    return [{'name': n, 'steps': PROGS[n], 'outMissing': n in out_missing} for n in names]
+    return [{'name': n, 'steps': PROGS[n], 'outMissing': n in out_missing, 'awt': AWT.get(n, [])} for n in names]
 
 
 def mc_module(name, progs, plans=((),), fixes=(), alphabet=ALL_REQUESTS, k=2, extra_defs='', cfg_extra='',
